@@ -40,17 +40,27 @@ pub struct Build {
     pub full: bool,
 }
 
-pub const ALL_BUILDS: [Build; 10] = [
+pub const ALL_BUILDS: [Build; 18] = [
+    // quick tier: the first 6 (every value of every switch, and every pair of overflow-checks x debug-assertions)
     Build { name: "A dev (opt0, overflow-checks, debug-assertions), default features", profile: "c20a", packed: false, full: false },
     Build { name: "B release (opt3, no checks), default features", profile: "c20b", packed: false, full: false },
     Build { name: "B release + packed + rkyv/num-traits/serde-as-str", profile: "c20b", packed: true, full: true },
+    Build { name: "E opt3, overflow-checks on, debug-assertions off, all optional features", profile: "c20e", packed: false, full: true },
+    Build { name: "F opt3, overflow-checks off, debug-assertions on, default features", profile: "c20f", packed: false, full: false },
+    Build { name: "D opt0 without checks + packed", profile: "c20d", packed: true, full: false },
+    // thorough tier: the full product {opt 0,3} x {overflow-checks} x {debug-assertions} x {packed}, plus feature variants
     Build { name: "C opt3 + checks, all optional features", profile: "c20c", packed: false, full: true },
     Build { name: "D opt0 without checks, default features", profile: "c20d", packed: false, full: false },
     Build { name: "A dev + packed", profile: "c20a", packed: true, full: false },
     Build { name: "C opt3 + checks + packed + all optional features", profile: "c20c", packed: true, full: true },
-    Build { name: "D opt0 without checks + packed", profile: "c20d", packed: true, full: false },
     Build { name: "B release + all optional features", profile: "c20b", packed: false, full: true },
     Build { name: "A dev + packed + all optional features", profile: "c20a", packed: true, full: true },
+    Build { name: "E opt3, overflow-checks on, debug-assertions off + packed", profile: "c20e", packed: true, full: false },
+    Build { name: "F opt3, overflow-checks off, debug-assertions on + packed + all optional features", profile: "c20f", packed: true, full: true },
+    Build { name: "G opt0, overflow-checks on, debug-assertions off", profile: "c20g", packed: false, full: false },
+    Build { name: "G opt0, overflow-checks on, debug-assertions off + packed + all optional features", profile: "c20g", packed: true, full: true },
+    Build { name: "H opt0, overflow-checks off, debug-assertions on, all optional features", profile: "c20h", packed: false, full: true },
+    Build { name: "H opt0, overflow-checks off, debug-assertions on + packed", profile: "c20h", packed: true, full: false },
 ];
 
 pub struct C20 {
@@ -65,7 +75,7 @@ fn target_dir(root: &Path, b: &Build) -> PathBuf {
 /// Build the driver for every configuration (in parallel); exit 2 on failure.
 pub fn prepare(root: &Path, tier: Tier) -> C20 {
     let builds: Vec<Build> = match tier {
-        Tier::Quick => ALL_BUILDS[..3].to_vec(),
+        Tier::Quick => ALL_BUILDS[..6].to_vec(),
         Tier::Thorough => ALL_BUILDS.to_vec(),
     };
     let drv = root.join("harness/c20drv");
